@@ -31,6 +31,7 @@ import (
 
 // packages (directories) that contain code reachable from the roots
 var dirs = []string{
+	"app", // InitChainer / BeginBlocker / EndBlocker / upgrade handlers / SetEVMCode
 	"types", // teletypes.EmitTypedEvent (called by the proposal handlers)
 	"x/xibc", "x/xibc/types", "x/xibc/core/host",
 	"x/xibc/core/client", "x/xibc/core/client/keeper", "x/xibc/core/client/types",
@@ -43,6 +44,7 @@ var dirs = []string{
 
 // entry points: <dir>:<func> or <dir>:<Recv>.<method>
 var roots = []string{
+	"app:Teleport.InitChainer", "app:Teleport.BeginBlocker", "app:Teleport.EndBlocker", "app:Teleport.registerUpgradeHandlers",
 	"x/xibc/core/client:NewClientProposalHandler", "x/xibc/core/client:handleCreateClientProposal",
 	"x/xibc/core/client:handleUpgradeClientProposal", "x/xibc/core/client:handleToggleClientProposal",
 	"x/xibc/core/client:handleRegisterRelayerProposal",
@@ -528,7 +530,17 @@ func scan(f *fn, consts map[string]bool, canNil map[string]bool) []Site {
 			add(x, "slice")
 		case *ast.TypeAssertExpr:
 			if x.Type != nil && !okAssert[x] {
-				add(x, "type-assert")
+				// provenance of the operand: a value the function just constructed (New…) is of the constructed type; a value that
+				// comes out of a store / keeper / pool look-up (Get…, Load…, Find…, Lookup…) is whatever was stored there
+				srcs := operandSources(f.decl, x.X)
+				kind := "type-assert"
+				for _, s := range srcs {
+					if lookupName(s) {
+						kind = "lookup-type-assert"
+					}
+				}
+				sites = append(sites, Site{File: f.file, Func: f.name, Line: fset.Position(x.Pos()).Line, Kind: kind,
+					Expr: text(x) + " ## operand from: " + strings.Join(srcs, ", ")})
 			}
 		}
 		return true
@@ -715,4 +727,75 @@ func adapterSites(repo string) ([]Site, error) {
 		}
 	}
 	return sites, nil
+}
+
+func lookupName(n string) bool {
+	for _, p := range []string{"Get", "MustGet", "Load", "Find", "Lookup", "Fetch", "Query", "Iterate"} {
+		if strings.HasPrefix(n, p) {
+			return true
+		}
+	}
+	return false
+}
+
+// the callees (or expression texts) of everything assigned, in this function, to the operand of a type assertion
+func operandSources(fd *ast.FuncDecl, x ast.Expr) []string {
+	set := map[string]bool{}
+	srcOf := func(e ast.Expr) string {
+		if c, ok := e.(*ast.CallExpr); ok {
+			if n := calleeName(c); n != "" {
+				return n
+			}
+		}
+		return text(e)
+	}
+	switch v := x.(type) {
+	case *ast.CallExpr:
+		set[srcOf(v)] = true
+	case *ast.Ident:
+		ast.Inspect(fd, func(n ast.Node) bool {
+			switch a := n.(type) {
+			case *ast.AssignStmt:
+				for i, l := range a.Lhs {
+					if id, ok := l.(*ast.Ident); ok && id.Name == v.Name {
+						if len(a.Rhs) == len(a.Lhs) {
+							set[srcOf(a.Rhs[i])] = true
+						} else if len(a.Rhs) == 1 {
+							set[srcOf(a.Rhs[0])] = true
+						}
+					}
+				}
+			case *ast.ValueSpec:
+				for i, nm := range a.Names {
+					if nm.Name == v.Name && i < len(a.Values) {
+						set[srcOf(a.Values[i])] = true
+					}
+				}
+			case *ast.Field: // parameter / receiver
+				for _, nm := range a.Names {
+					if nm.Name == v.Name {
+						set["parameter"] = true
+					}
+				}
+			case *ast.RangeStmt:
+				for _, e := range []ast.Expr{a.Key, a.Value} {
+					if id, ok := e.(*ast.Ident); ok && id.Name == v.Name {
+						set["range "+text(a.X)] = true
+					}
+				}
+			}
+			return true
+		})
+	default:
+		set[text(x)] = true
+	}
+	var out []string
+	for k := range set {
+		out = append(out, k)
+	}
+	sort.Strings(out)
+	if len(out) == 0 {
+		out = []string{"?"}
+	}
+	return out
 }
